@@ -564,7 +564,8 @@ def run_history(ctx, Data, ClimateData, GeoGrid, cid, r, climate):
             ctor_w = w
     kw = dict(observable=obs, grid=grid, window=ctor_w, silence_level=3)
     if climate:
-        kw.update(time_cycle=cycle, anomalies=flag)
+        from pvm.gen.held import as_flag
+        kw.update(time_cycle=cycle, anomalies=as_flag(r, flag))
     ok, d = ctx.call(ClimateData if climate else Data, **kw)
     if not ok:
         ctx.violation(f"{cls}.__init__:raises:{type(d).__name__}:"
